@@ -62,16 +62,33 @@ func (c *Ctx) runCycle(rule string, pkgs []*packages.Package, filter func(fn *ss
 					if k, isC := constInt(rem.Y); !isC || k != N {
 						continue
 					}
-					// (phi + k) or phi
+					// (v + k) or v, where v is the loop counter: the phi of a
+					// three-clause loop, or phi+1 of a range loop over an array
+					// (go/ssa starts those at -1 and tests the incremented value)
+					cands := []ssa.Value{rem.X}
+					if y, ok := rem.X.(*ssa.BinOp); ok && y.Op == token.ADD {
+						if _, isC := constInt(y.Y); isC {
+							cands = append(cands, y.X)
+						}
+					}
 					var phi *ssa.Phi
-					switch y := rem.X.(type) {
-					case *ssa.Phi:
-						phi = y
-					case *ssa.BinOp:
-						if y.Op == token.ADD {
-							if ph, ok := y.X.(*ssa.Phi); ok {
-								phi = ph
+					var counter ssa.Value
+					wantStart := int64(0)
+					for _, cand := range cands {
+						switch y := cand.(type) {
+						case *ssa.Phi:
+							if phiStart(y, loops) == 0 {
+								phi, counter = y, y
 							}
+						case *ssa.BinOp:
+							if ph, ok := y.X.(*ssa.Phi); ok && y.Op == token.ADD && phiStart(ph, loops) == -1 {
+								if k, isC := constInt(y.Y); isC && k == 1 {
+									phi, counter, wantStart = ph, y, -1
+								}
+							}
+						}
+						if phi != nil {
+							break
 						}
 					}
 					if phi == nil || done[phi] {
@@ -81,8 +98,8 @@ func (c *Ctx) runCycle(rule string, pkgs []*packages.Package, filter func(fn *ss
 					if !isHead || !body[b] {
 						continue
 					}
-					// counter from 0, step +1
-					startsAtZero, stepsByOne := false, false
+					// counter from 0 (or -1 for the range form), step +1
+					startOK, stepsByOne := false, false
 					for i, e := range phi.Edges {
 						pred := phi.Block().Preds[i]
 						if body[pred] {
@@ -91,20 +108,20 @@ func (c *Ctx) runCycle(rule string, pkgs []*packages.Package, filter func(fn *ss
 									stepsByOne = true
 								}
 							}
-						} else if k, isC := constInt(e); isC && k == 0 {
-							startsAtZero = true
+						} else if k, isC := constInt(e); isC && k == wantStart {
+							startOK = true
 						}
 					}
-					if !startsAtZero || !stepsByOne {
+					if !startOK || !stepsByOne {
 						continue
 					}
-					// exit test i < M with constant M
+					// exit test counter < M with constant M
 					ifi, ok := phi.Block().Instrs[len(phi.Block().Instrs)-1].(*ssa.If)
 					if !ok {
 						continue
 					}
 					cond, ok := ifi.Cond.(*ssa.BinOp)
-					if !ok || cond.Op != token.LSS || cond.X != ssa.Value(phi) {
+					if !ok || cond.Op != token.LSS || cond.X != counter {
 						continue
 					}
 					M, isC := constInt(cond.Y)
@@ -217,4 +234,21 @@ func (c *Ctx) runEdgeTable(rule string, pkgs []*packages.Package, fileOK func(na
 			}
 		}
 	}
+}
+
+// phiStart returns the constant a loop-head phi has on entry to its loop, or
+// a large value if it is not constant.
+func phiStart(phi *ssa.Phi, loops map[*ssa.BasicBlock]map[*ssa.BasicBlock]bool) int64 {
+	body, isHead := loops[phi.Block()]
+	if !isHead {
+		return 1 << 40
+	}
+	for i, e := range phi.Edges {
+		if !body[phi.Block().Preds[i]] {
+			if k, isC := constInt(e); isC {
+				return k
+			}
+		}
+	}
+	return 1 << 40
 }
